@@ -469,7 +469,7 @@ func main() {
 		fmt.Fprintln(os.Stderr, err)
 		os.Exit(2)
 	}
-	fpf, _, err := analyse(filepath.Join(*repo, "internal", "fp"), "fp")
+	fpf, fpFiles, err := analyse(filepath.Join(*repo, "internal", "fp"), "fp")
 	if err != nil {
 		fmt.Fprintln(os.Stderr, err)
 		os.Exit(2)
@@ -554,6 +554,47 @@ func main() {
 		fmt.Fprintf(&b, "(%q, %v)", n, wshape[n])
 	}
 	b.WriteString("]\n")
+	// numeric and character literals of every hand-written function (the constants the hand models copy): per source file
+	// a list of (function, sorted literals). Strings (error texts) are left out.
+	emitLits := func(defName, doc string, fs map[string]*ast.File, want func(base string) bool) {
+		type fl struct{ name, lits string }
+		var rows []fl
+		for path, f := range fs {
+			if !want(filepath.Base(path)) {
+				continue
+			}
+			for _, d := range f.Decls {
+				fd, ok := d.(*ast.FuncDecl)
+				if !ok || fd.Body == nil {
+					continue
+				}
+				var lits []string
+				ast.Inspect(fd.Body, func(n ast.Node) bool {
+					if bl, ok := n.(*ast.BasicLit); ok && (bl.Kind == token.INT || bl.Kind == token.FLOAT || bl.Kind == token.CHAR) {
+						lits = append(lits, bl.Value)
+					}
+					return true
+				})
+				sort.Strings(lits)
+				rows = append(rows, fl{funcKey("", fd), strings.Join(lits, " ")})
+			}
+		}
+		sort.Slice(rows, func(i, j int) bool { return rows[i].name < rows[j].name })
+		fmt.Fprintf(&b, "/-- %s -/\ndef %s : List (String × String) := [", doc, defName)
+		for i, r := range rows {
+			if i > 0 {
+				b.WriteString(", ")
+			}
+			fmt.Fprintf(&b, "(%q, %q)", r.name, r.lits)
+		}
+		b.WriteString("]\n")
+	}
+	emitLits("literalsFp", "internal/fp (fp.go, decimal.go, eisel_lemire.go): integer / float / character literals per function, sorted", fpFiles, func(string) bool { return true })
+	for _, g := range []struct{ def, file string }{{"literalsSimpleReaders", "simple_readers.go"}, {"literalsToken", "token.go"}, {"literalsHelpers", "machine_helpers.go"},
+		{"literalsComplexReaders", "complex_readers.go"}, {"literalsDecode", "decode.go"}, {"literalsRjson", "rjson.go"}} {
+		file := g.file
+		emitLits(g.def, file+": integer / float / character literals per function, sorted", files, func(base string) bool { return base == file })
+	}
 	reach, sites, aerr := allocFacts(*repo)
 	if aerr != nil {
 		fmt.Fprintln(os.Stderr, aerr)
